@@ -15,6 +15,7 @@ CONSTANTS
     OpComps,      \* components the operations range over
     OpKinds,      \* subset of {"spawn","despawn","mark","unmark","insert","remove","mutate","setvis","timeout"}
     SettleRounds, \* perfect-link rounds of the settle phase
+    Pre,          \* names of pre-spawned client entities
     MaxRecon,     \* budget of disconnects / server stops
     Graphs,       \* number of relation graphs the server maintains (0 unless relations are modelled)
     Emit          \* TRUE: print every settled behaviour as JSON for replay
@@ -32,6 +33,7 @@ ImplF19 == [ImplDesigned EXCEPT !.ackDiscarded = TRUE]
 ImplLeak == [ImplDesigned EXCEPT !.seedLeakHidden = TRUE]
 ImplF21 == [ImplDesigned EXCEPT !.lateJoinerMissesEmpty = TRUE]
 ImplF15 == [ImplDesigned EXCEPT !.staleBuffersOnRestart = TRUE]
+ImplNoMap == [ImplDesigned EXCEPT !.seedIgnoreMapping = TRUE]
 ImplF9  == [ImplDesigned EXCEPT !.removalOverwrite = TRUE]
 ImplF11 == [ImplDesigned EXCEPT !.emptyMutateWithGraphs = TRUE]
 ImplF14 == [ImplDesigned EXCEPT !.whiteReAddForgetsLost = TRUE]
@@ -91,6 +93,16 @@ SetVis(c, e, v) ==
     /\ st' = SetVisF(st, c, e, v) /\ g' = GhostSetVis(g, c, e, v)
     /\ Log("SetVis", [c |-> c, e |-> e, v |-> v])
 
+Prespawn(c, p) ==
+    /\ Op("prespawn") /\ PrespawnEnabled(st, c, p)
+    /\ st' = PrespawnF(st, c, p) /\ UNCHANGED g /\ Log("Prespawn", [c |-> c, p |-> p])
+KillPre(c, p) ==
+    /\ Op("killpre") /\ KillPreEnabled(st, c, p)
+    /\ st' = KillPreF(st, c, p) /\ UNCHANGED g /\ Log("KillPre", [c |-> c, p |-> p])
+MapPre(c, e, p) ==
+    /\ Op("mappre") /\ MapPreEnabled(st, c, e, p)
+    /\ st' = MapPreF(st, c, e, p) /\ UNCHANGED g /\ Log("MapPre", [c |-> c, e |-> e, p |-> p])
+
 SrvFrame(doTick, dt) ==
     /\ Running
     /\ IF doTick THEN b.ticks < MaxTicks /\ b' = [b EXCEPT !.ticks = @ + 1]
@@ -98,7 +110,7 @@ SrvFrame(doTick, dt) ==
     /\ dt > 0 => "timeout" \in OpKinds
     /\ \E r \in {FrameR(st, doTick, dt)} :
           /\ st' = r.st
-          /\ g' = IF r.ran THEN GhostSnap(g, r.st) ELSE g
+          /\ g' = IF r.ran THEN GhostSnap(GhostMaps(g, st, r.st), r.st) ELSE g
     /\ Log("SrvFrame", [tick |-> doTick, dt |-> dt])
 
 DeliverUpd(c) ==
@@ -154,7 +166,7 @@ ClientRound(s, c) ==
 \* one round: ticking server frame, then every client catches up and acknowledges
 Round(p) ==
     Then(Frame(p.st, TRUE, 0), LAMBDA s1 :
-        [st |-> FoldSet(ClientRound, s1, Client), g |-> GhostSnap(p.g, s1)])
+        [st |-> FoldSet(ClientRound, s1, Client), g |-> GhostSnap(GhostMaps(p.g, p.st, s1), s1)])
 
 RECURSIVE Rounds(_, _)
 Rounds(p, n) == IF n = 0 THEN p ELSE Then(Round(p), LAMBDA q : Rounds(q, n - 1))
@@ -178,6 +190,8 @@ Next ==
     \/ \E e \in Ent : Despawn(e) \/ Mark(e) \/ Unmark(e)
     \/ \E e \in Ent, k \in OpComps : Insert(e, k) \/ Remove(e, k) \/ Mutate(e, k)
     \/ \E c \in Client, e \in Ent, v \in BOOLEAN : SetVis(c, e, v)
+    \/ \E c \in Client, p \in Pre : Prespawn(c, p) \/ KillPre(c, p)
+    \/ \E c \in Client, e \in Ent, p \in Pre : MapPre(c, e, p)
     \/ \E doTick \in BOOLEAN, dt \in {0, Timeout} : SrvFrame(doTick, dt)
     \/ \E c \in Client : DeliverUpd(c) \/ DeliverAck(c) \/ CliFrame(c) \/ Disconnect(c) \/ Connect(c)
     \/ Stop \/ Start
@@ -195,6 +209,7 @@ Inv_C01 == Settled => (C01_AtQuiescence(st) /\ NoPanic(st))
 Inv_C02 == C02(st, g)
 Inv_C03 == C03(st, g)
 Inv_C08 == C08_Data(st, g) /\ C08_Query(st, g)
+Inv_C16 == C16(st, g)
 Inv_C11 == Settled => C11_SilentAtRest(g)
 
 Prop_Mono == [][C02_MonoStep(st, st') /\ C03_MonoStep(st, st')]_vars
